@@ -7,7 +7,7 @@ from checks.c01 import contains
 
 RULE = ("valid cell ids: every cell of res 0..5 (quick) / 0..7 (thorough, 327,672 cells) by enumeration; res 6..29 by id "
         "construction with structured S (all-0, all-3, 0333../1000.., alternating, single digit, random) and by location "
-        "(cells found at poles, frame points, antimeridian). Oracle: cell_to_lonlat in [-180,180]x[-90,90] (exact), centre "
+        "(cells found at poles, frame points, antimeridian); blocks of 16 sibling cells next to all 30 face edges at res 14..19 (60/2500 positions per edge). Oracle: cell_to_lonlat in [-180,180]x[-90,90] (exact), centre "
         "strictly inside own ring (independent point-in-ring), lonlat_to_cell(centre,res)==cell. Every case is a distinct "
         "cell; non-trivial = all except res<2.")
 ASSUMPTIONS = ["ring at 8 (then 64) segments per edge stands for the true boundary, tolerance as in C01"]
@@ -87,8 +87,31 @@ def stage_boundary(ctx):
     hyp_drive(ctx, strat, judge, 150 if ctx.tier == "quick" else 6000)
 
 
+def stage_edge_blocks(ctx):
+    """Blocks of 16 sibling cells found next to the dodecahedron's face edges (where the face decision is made) at
+    res 14..19, every cell judged; positions on a per-edge phased grid along all 30 edges."""
+    import math
+    a5 = _a5()
+    N = 60 if ctx.tier == "quick" else 2500
+    edges = gens._EDGES
+    for e in range(len(edges))[ctx.shard::ctx.nshards]:
+        a, b = edges[e]
+        nrm = refgeo._norm(refgeo._cross(a, b))
+        phase = (ctx.seed * 0.6180339887498949 + e * 0.3819660112501051 + 0.29) % 1.0
+        for i in range(N):
+            base = refgeo.slerp_vec(a, b, (i + phase) / N)
+            res = 14 + (i + e) % 6
+            d = (1 if (i + e) % 2 else -1) * 1.2 * refgeo.cell_width(res)
+            v = refgeo._norm(tuple(base[k] + d * nrm[k] for k in range(3)))
+            lon, lat = refgeo.frame_to_lonlat(v)
+            case = {"lon": lon, "lat": lat, "res": res}
+            c0 = guarded(a5.lonlat_to_cell, (lon, lat), res, kind="lonlat_to_cell_raised", case=case)
+            for c in refids.children(refids.parent(c0, res - 2), res):
+                judge_cell(c, ctx.col, ("edge_block",), enumerated=True)
+
+
 def plan(tier):
-    return [Stage("enum", 16, stage_enum, cost=10), Stage("hyp", 16, stage_hyp, cost=5), Stage("boundary", 16, stage_boundary, cost=4)]
+    return [Stage("enum", 16, stage_enum, cost=10), Stage("hyp", 16, stage_hyp, cost=5), Stage("boundary", 16, stage_boundary, cost=4), Stage("edge_blocks", 15, stage_edge_blocks, cost=6)]
 
 
 def replay(rec, col):
